@@ -14,6 +14,7 @@ import (
 	"github.com/zilliztech/milvus-cdc/core/reader"
 	"github.com/zilliztech/milvus-cdc/core/util"
 	"github.com/zilliztech/milvus-cdc/core/meta"
+	"github.com/zilliztech/milvus-cdc/core/model"
 
 	"verifharness/lib/cq"
 	"verifharness/lib/hx"
@@ -90,7 +91,7 @@ func runStopMid(out *cq.Out, shards int, ops []string, tag string) {
 	}
 	var lt []string
 	var reqs []string
-	mids := 0
+	mids, lates := 0, 0
 	for _, op := range ops {
 		s.cur = len(lt)
 		switch op {
@@ -103,6 +104,64 @@ func runStopMid(out *cq.Out, shards int, ops []string, tag string) {
 			lt = append(lt, "LStart")
 		case "stop":
 			s.apply(label{kind: "stop", c: d})
+			reading, seen = false, 0
+			lt = append(lt, "LStop")
+		case "startstop":
+			// the collection is stopped while the registrations of its shards' streams are still in flight (held in the fake
+			// dispatcher); they complete after the stop.  For the model: a start followed by a stop.
+			if reading || s.dropReqs() > 0 {
+				s.apply(label{kind: "start", c: d})
+				lt = append(lt, "LStart")
+				reqs = append(reqs, cq.Nat(s.dropReqs()))
+				s.apply(label{kind: "stop", c: d})
+				reading, seen = false, 0
+				lt = append(lt, "LStop")
+				break
+			}
+			free := make(chan struct{})
+			in := make(chan struct{}, 8)
+			disp.Gate = func(v string) {
+				in <- struct{}{}
+				<-free
+			}
+			tc := &rfake.TColl{ID: d.tid, Parts: map[string]int64{}, Exists: true}
+			for _, p := range d.tgt {
+				tc.VChs = append(tc.VChs, p[0])
+				tc.PChs = append(tc.PChs, p[1])
+				s.tpchs[p[1]] = true
+			}
+			for k, v := range d.parts {
+				tc.Parts[k] = v
+			}
+			s.target.Colls[d.name] = tc
+			_ = s.mgr.StartReadCollection(s.ctx, &model.DatabaseInfo{ID: 1, Name: "default"}, s.info(d), nil, nil)
+			held := 0
+			to := time.After(2 * time.Second)
+		wait:
+			for held < shards {
+				select {
+				case <-in:
+					held++
+				case <-to:
+					timeouts++
+					break wait
+				}
+			}
+			lt = append(lt, "LStart")
+			reqs = append(reqs, cq.Nat(s.dropReqs()))
+			s.apply(label{kind: "stop", c: d})
+			disp.Gate = nil
+			close(free)
+			dl := time.Now().Add(2 * time.Second)
+			for _, p := range d.src {
+				for !disp.Registered(p[0]) && time.Now().Before(dl) {
+					time.Sleep(time.Millisecond)
+				}
+			}
+			time.Sleep(5 * time.Millisecond)
+			if held == shards {
+				lates++
+			}
 			reading, seen = false, 0
 			lt = append(lt, "LStop")
 		case "read":
@@ -158,6 +217,10 @@ func runStopMid(out *cq.Out, shards int, ops []string, tag string) {
 		out.CountN("stops between the last count and the hand-over", mids)
 		out.NonTrivial(fmt.Sprint(shards, lt))
 	}
+	if lates > 0 {
+		out.CountN("stops while the stream registrations are in flight", lates)
+		out.NonTrivial(fmt.Sprint(shards, lt))
+	}
 	for _, l := range lt {
 		if strings.HasPrefix(l, "(LReadStop") {
 			out.Count(l)
@@ -177,6 +240,8 @@ func runStopMidAll(out *cq.Out, a *hx.Args) {
 	runStopMid(out, 1, append([]string{"start", "readstop"}, closing(1)...), "corpus: one shard, the stop before the hand-over")
 	runStopMid(out, 2, append([]string{"start", "read", "readstop"}, closing(2)...), "corpus: two shards, the stop before the hand-over")
 	runStopMid(out, 2, append([]string{"start", "read", "stop", "start", "read", "read"}, closing(2)...), "corpus: stopped half way, started again, dropped")
+	runStopMid(out, 2, append([]string{"startstop"}, closing(2)[1:]...), "corpus: stopped while the stream registrations are in flight, started again, dropped")
+	runStopMid(out, 1, append([]string{"start", "stop", "startstop"}, closing(1)[1:]...), "corpus: started, stopped, then stopped again while the registration is in flight")
 	r := a.Rng
 	for i := 0; i < a.N; i++ {
 		sh := 1 + r.Intn(2)
@@ -189,10 +254,18 @@ func runStopMidAll(out *cq.Out, a *hx.Args) {
 				ops = append(ops, "readstop")
 			case x < 8:
 				ops = append(ops, "stop")
+			case x < 9:
+				ops = append(ops, "stop", "startstop")
 			default:
 				ops = append(ops, "start")
 			}
 		}
-		runStopMid(out, sh, append(ops, closing(sh)...), "generated")
+		cl := closing(sh)
+		if r.Intn(4) == 0 {
+			// the closing stop is one whose registrations are still in flight
+			ops = append(ops, "stop", "startstop")
+			cl = cl[1:]
+		}
+		runStopMid(out, sh, append(ops, cl...), "generated")
 	}
 }
